@@ -3,9 +3,9 @@
 Require Extraction.
 Require Import ExtrOcamlBasic ExtrOcamlZBigInt ExtrOcamlNatBigInt.
 From LZ4V Require Import Spec.BlockSpec Spec.BlockFast Spec.XXH32 Spec.FrameSpec.
-From LZ4V Require Import Gen.Consts Model.Mem Model.BlockMap Model.FrameC Model.FrameAudit.
+From LZ4V Require Import Gen.Consts Model.FrameC Model.FrameAudit.
 Extraction Language OCaml.
 Extraction "lz4v.ml"
-  spec_decode_fast strict_valid_fast decode_map spec_decode_map strict_valid_map xxh32 frame_decode parse_desc header_bytes
+  spec_decode_fast strict_valid_fast parse_block end_ok run_seqs_fast xxh32 frame_decode parse_desc header_bytes
   frame_audit cctx_zero step run compressFrame createCDict history frame_header
   getBlockSize optimalBSID.
